@@ -1,23 +1,27 @@
 """C09 - W3C trace-context propagation round-trips and only accepts well-formed headers."""
 import re
 from vcore import Case, Harness
+from props import c14 as C14     # the Python reference of the tracestate grammar (spec_from / spec_set), not the model
 
 ID = 'C09'
-GEN = ['Hex', 'TraceState', 'TabHex', 'TabKv']
+GEN = ['Hex', 'TraceState', 'TabHex', 'TabKv', 'TraceHeaders']
 LEAN_TARGETS = ['OtelVerif.Props.C09', 'OtelVerif.Props.TabHex', 'OtelVerif.Props.TabHexB', 'OtelVerif.Props.TabW3c', 'OtelVerif.Props.TabKv']
-THEOREMS = ['Otel.C09.' + t for t in (
-    'traceId_table_lower', 'spanId_table_lower', 'traceFlags_table_lower', 'isHexDigit_iff', 'hexToInt_eq_digitVal',
-    'extract_of_wellformed', 'wellformed_of_extract', 'extract_iff_wellformed', 'extract_some_valid',
-    'inject_invalid_none', 'inject_shape', 'extract_inject')] + ['Otel.Tab.' + t for t in (
-    'tab_hexToInt', 'tab_isValidHex1', 'tab_hexToBinary1', 'tab_hexToBinary2_digits', 'tab_hexToBinaryShort', 'tab_traceIdLower', 'tab_spanIdLower', 'tab_flagsLower', 'tab_flagsIsSampled', 'tab_flagsIsRandom', 'tab_hexToBinary2_cross', 'tab_tpFlagsByte', 'tab_tpInjectFlags', 'tab_tpVersion', 'tab_trimDrops', 'tab_trimShort', 'tab_trim3Short', 'tab_kvTokSep', 'tab_kvTokShort')]
+THEOREMS = ['Otel.C09.traceId_table_lower', 'Otel.C09.spanId_table_lower', 'Otel.C09.traceFlags_table_lower', 'Otel.C09.isHexDigit_iff', 'Otel.C09.hexToInt_eq_digitVal', 'Otel.C09.extract_of_wellformed', 'Otel.C09.wellformed_of_extract', 'Otel.C09.extract_iff_wellformed', 'Otel.C09.extract_some_valid', 'Otel.C09.inject_invalid_none', 'Otel.C09.inject_shape', 'Otel.C09.extract_inject', 'Otel.C09.fields_names', 'Otel.C09.fields_stop', 'Otel.C09.idFromHex_traceIdToHex', 'Otel.C09.idFromHex_spanIdToHex', 'Otel.C09.idFromHex_flagsToHex', 'Otel.C09.idFromHex_overlong', 'Otel.Tab.tab_hexToInt', 'Otel.Tab.tab_isValidHex1', 'Otel.Tab.tab_hexToBinary1', 'Otel.Tab.tab_hexToBinary2_digits', 'Otel.Tab.tab_hexToBinaryShort', 'Otel.Tab.tab_traceIdLower', 'Otel.Tab.tab_spanIdLower', 'Otel.Tab.tab_flagsLower', 'Otel.Tab.tab_flagsIsSampled', 'Otel.Tab.tab_flagsIsRandom', 'Otel.Tab.tab_hexToBinary2_cross', 'Otel.Tab.tab_tpFlagsByte', 'Otel.Tab.tab_tpInjectFlags', 'Otel.Tab.tab_tpVersion', 'Otel.Tab.tab_trimDrops', 'Otel.Tab.tab_trimShort', 'Otel.Tab.tab_trim3Short', 'Otel.Tab.tab_kvTokSep', 'Otel.Tab.tab_kvTokShort']
 HARNESSES = [Harness('f_c09', ['harness/f_c09.cc'])]
 H = 'f_c09'
 RULE = ('inject/roundtrip: random and edge ids x all 256 flag bytes x canonical trace states; extract: valid headers, '
         'every single-byte substitution of a valid header (55x256, exhaustive), insert/delete/duplicate mutations, '
-        'length sweep, versions, surrounding whitespace, NUL and >=0x80 bytes. non-trivial = the case exercises a '
+        'length sweep, versions, surrounding whitespace, NUL and >=0x80 bytes; tracestate headers that are messy / invalid / '
+        'over-long beside a valid traceparent (the installed trace state is judged by the grammar); the same extract '
+        'streams with a caller context that already holds a span (extractp); trace states built with Set instead of '
+        'FromHeader (injects / roundtrips); Fields() with a declining callback; Inject of a span-less context; the public '
+        'static TraceIdFromHex / SpanIdFromHex / TraceFlagsFromHex and detail::HexToBinary / IsValidHex / SplitString called '
+        'directly (odd, short, over-long inputs, count 0..6); every accessor of ids / flags / context cross-checked in the '
+        'harness on every printed context. non-trivial = the case exercises a '
         'non-empty traceparent / a valid span context; distinct = distinct case line')
 TRUSTED = ['std::regex (its result is compared with the translated predicate)', 'memory safety of the C++ is shown by ASan/UBSan runs on exact-size buffers, not by the theorems']
-ASSUMPTIONS = ['tracestate semantics are C14\'s; the C09 oracle checks the trace state only for canonical lists']
+ASSUMPTIONS = ['tracestate semantics are C14\'s: the C09 oracle judges the installed trace state with C14\'s Python reference of the grammar (all-or-nothing, at most 32 members)',
+               'HexToBinary on a non-hex byte in a high-nibble position is undefined behaviour before C++20 (left shift of -1); it is unreachable from Extract (IsValidHex guards it) and kept out of the direct-call streams, see CANDIDATE_FINDINGS']
 WS = b' \t\n\v\f\r'
 HEXD = b'0123456789abcdefABCDEF'
 
@@ -33,7 +37,40 @@ def corpus():
     for f in (0xab, 0xff, 0x0a, 0xf0):
         out.append(Case(f'tc inject {tid.hex()} {sid.hex()} {f:02x} -', H, ('corpus', 'inject-flags-letters'), 'corpus'))
         out.append(Case(f'tc roundtrip {tid.hex()} {sid.hex()} {f:02x} -', H, ('corpus', 'roundtrip'), 'corpus'))
+    # further entry points (coverage audit): Fields(), span-less Inject, Set-built trace state, the static helpers
+    for n in range(0, 4):
+        out.append(Case(f'tc fields {n}', H, ('corpus', 'fields'), 'corpus'))
+    out.append(Case('tc inject0', H, ('corpus', 'inject-no-span'), 'corpus'))
+    out.append(Case(f'tc injects {tid.hex()} {sid.hex()} ab {hx(b"a=1,b=2")}', H, ('corpus', 'inject-set-built'), 'corpus'))
+    out.append(Case(f'tc roundtrips {tid.hex()} {sid.hex()} ab {hx(b"a=1,b=2")}', H, ('corpus', 'roundtrip-set-built'), 'corpus'))
+    out.append(Case(f'tc injects {tid.hex()} {sid.hex()} 01 -', H, ('corpus', 'inject-set-built'), 'corpus'))
+    tp = f'00-{tid.hex()}-{sid.hex()}-01'.encode()
+    full33 = b','.join(b'k%d=v' % i for i in range(33))
+    for ts in (b'a=1', b'a=1,,b=2', b' a=1 , b=2 ', b'a=1,b', b'A=1', b'a=\x7f', full33, full33[:-6], b'a=1,' * 33, b','):
+        out.append(Case(f'tc extract {hx(tp)} {hx(ts)}', H, ('corpus', 'extract-tracestate'), 'corpus'))
+        out.append(Case(f'tc extractp {hx(tp)} {hx(ts)}', H, ('corpus', 'extractp'), 'corpus'))
+    for bad in (b'', tp[:-1], tp + b'-', b'ff' + tp[2:], b'00-' + b'0' * 32 + tp[35:]):
+        out.append(Case(f'tc extractp {hx(bad)} {hx(b"a=1")}', H, ('corpus', 'extractp'), 'corpus'))
+    for w, h in (('t', b''), ('t', b'abc'), ('t', b'A' * 32), ('t', b'1' * 33), ('s', b'1' * 17), ('s', b'f'), ('f', b''), ('f', b'a'),
+                 ('f', b'Ab'), ('f', b'123'), ('f', b'g'), ('f', b'1g')):
+        out.append(Case(f'tc idhex {w} {hx(h)}', H, ('corpus', 'idhex'), 'corpus'))
+    for n, h in ((0, b''), (0, b'1'), (1, b'1'), (1, b'12'), (1, b'123'), (2, b'123'), (4, b'abc'), (3, b'ABCDEF'), (3, b'ABCDEF0')):
+        out.append(Case(f'tc hex2bin {n} {hx(h)}', H, ('corpus', 'hex2bin'), 'corpus'))
+    for cnt, h in ((0, b'a-b'), (0, b''), (1, b'a-b'), (2, b'a-b-c'), (3, b'a-b-c'), (4, b'a-b-c'), (2, b'--'), (3, b''), (4, b'-')):
+        out.append(Case(f'tc split 2d {cnt} {hx(h)}', H, ('corpus', 'split'), 'corpus'))
     return out
+
+
+# Inputs on which the unchanged tree misbehaves; kept OUT of the default generation (the framework owner triages them).
+# HexToBinary (hex.h:74) computes `HexToInt(c) << 4` with HexToInt(c) == -1 for a non-hex byte: a left shift of a negative
+# value, undefined behaviour in the C++14/17 the library is built as (UBSan: "left shift of negative value -1").  Extract
+# never gets there (IsValidHex is checked first); the public static helpers TraceIdFromHex / SpanIdFromHex /
+# TraceFlagsFromHex do.  Observed: the harness aborts under -fsanitize=undefined; expected: some id / no UB.
+CANDIDATE_FINDINGS = [
+    'tc idhex f 6731',         # TraceFlagsFromHex("g1")
+    'tc idhex t 7a7a',         # TraceIdFromHex("zz")
+    'tc hex2bin 2 6731',       # detail::HexToBinary("g1", buf, 2)
+]
 
 
 def valid_tp(rng, version=b'00', upper=False):
@@ -139,11 +176,103 @@ def generate(rng, tier):
         for alpha in (b'0', b'-', b'0123456789abcdef-', bytes(range(256))):
             s = bytes(rng.choice(alpha) for _ in range(n))
             out.append(Case(f'tc extract {hx(s)} -', H, ('extract', 'length-sweep')))
+    out += generate_entry_points(rng, big, base)
     # ---- zero ids
     z = b'00-' + b'0' * 32 + b'-' + b'1' * 16 + b'-01'
     out.append(Case(f'tc extract {hx(z)} -', H, ('extract', 'zero-id')))
     z = b'00-' + b'1' * 32 + b'-' + b'0' * 16 + b'-01'
     out.append(Case(f'tc extract {hx(z)} -', H, ('extract', 'zero-id')))
+    return out
+
+
+def uniq_ts(rng):
+    """canonical valid trace state with pairwise distinct keys (so that building it with Set gives the same list)"""
+    n = rng.choice([0, 1, 1, 2, 3, 5, 31, 32])
+    alpha = 'abcdefghijklmnopqrstuvwxyz0123456789'
+    members = []
+    for i in range(n):
+        k = rng.choice(alpha) + ''.join(rng.choice(alpha + '_-*/') for _ in range(rng.randrange(0, 6))) + f'_{i}'
+        if rng.random() < 0.1:
+            k += '@' + rng.choice(alpha) + ''.join(rng.choice(alpha + '_-*/') for _ in range(rng.randrange(0, 4)))
+        v = ''.join(chr(rng.choice([c for c in range(0x21, 0x7f) if c not in (0x2c, 0x3d)])) for _ in range(rng.randrange(1, 6)))
+        members.append(f'{k}={v}')
+    return ','.join(members).encode()
+
+
+def safe_hexish(rng, n, nonhex):
+    """n bytes of hex digits (either case); with `nonhex`, some bytes in LOW-nibble / odd-leading positions are arbitrary
+    (a non-hex byte in a high-nibble position is the undefined shift listed under CANDIDATE_FINDINGS)"""
+    b = bytearray(rng.choice(HEXD) for _ in range(n))
+    if nonhex:
+        for i in range(n):
+            if i % 2 != n % 2 and rng.random() < 0.3:
+                b[i] = rng.choice(b'gG:@/` \x00\xff-') if rng.random() < 0.7 else rng.randrange(256)
+    return bytes(b)
+
+
+def generate_entry_points(rng, big, base):
+    """entry points beside Inject / Extract on a fresh context that funnel into the same anchored code"""
+    out = []
+    mul = 20 if big else 1
+    for n in range(0, 5):
+        out.append(Case(f'tc fields {n}', H, ('fields', 'callback-stops-at-%d' % n)))
+    out.append(Case('tc inject0', H, ('inject', 'no-span')))
+    # ---- trace state built by Set (and the constructor's defaulted trace-state argument when empty)
+    for _ in range(250 * mul):
+        tid = bytes(rng.randrange(256) for _ in range(16)); sid = bytes(rng.randrange(256) for _ in range(8))
+        r = rng.random()
+        if r < 0.05: tid = bytes(16)
+        elif r < 0.1: sid = bytes(8)
+        op = rng.choice(['injects', 'roundtrips'])
+        out.append(Case(f'tc {op} {tid.hex()} {sid.hex()} {rng.randrange(256):02x} {hx(uniq_ts(rng))}', H, (op, 'set-built-state')))
+    # ---- extract: a valid (sometimes invalid) traceparent beside a messy tracestate
+    pool = [b'a', b'b', b'c1', b't@s']
+    for _ in range(700 * mul):
+        tp = valid_tp(rng, version=rng.choice([b'00', b'00', b'00', b'01', b'fe']), upper=rng.random() < 0.2)
+        if rng.random() < 0.15:
+            tp = tp[:rng.randrange(len(tp))] if rng.random() < 0.5 else b'ff' + tp[2:]
+        ts = C14.rheader(rng, pool)
+        op = 'extract' if rng.random() < 0.6 else 'extractp'
+        out.append(Case(f'tc {op} {hx(tp)} {hx(ts)}', H, (op, 'messy-tracestate')))
+    # ---- extractp: the caller's context already holds a span; the extract streams again
+    for _ in range(300 * mul):
+        tp = valid_tp(rng, upper=rng.random() < 0.3)
+        out.append(Case(f'tc extractp {hx(tp)} {hx(rand_ts(rng))}', H, ('extractp', 'valid')))
+    for pos in range(55):          # a slice of the exhaustive substitution table
+        for b in range(pos % 8, 256, 8):
+            m = bytearray(base); m[pos] = b
+            out.append(Case(f'tc extractp {hx(bytes(m))} -', H, ('extractp', 'subst-slice')))
+    for _ in range(300 * mul):
+        tp = bytearray(valid_tp(rng, version=rng.choice([b'00', b'00', b'01', b'ff'])))
+        r = rng.random(); pos = rng.randrange(len(tp) + 1)
+        if r < 0.3: del tp[min(pos, len(tp) - 1)]
+        elif r < 0.6: tp.insert(pos, rng.choice(b'-0aAgG \x00\xff'))
+        elif r < 0.8: tp = tp[:pos]
+        else: tp += bytes(rng.choice(b'-0a') for _ in range(rng.randrange(1, 20)))
+        pre = bytes(rng.choice(WS) for _ in range(rng.randrange(0, 3)))
+        out.append(Case(f'tc extractp {hx(pre + bytes(tp))} {hx(rand_ts(rng) if rng.random() < 0.3 else b"")}', H, ('extractp', 'mutation')))
+    # ---- the public static helpers and the detail functions, called directly
+    for w, cap in (('t', 32), ('s', 16), ('f', 2)):
+        for n in range(0, cap + 4):
+            for rep in range(2 * mul):
+                out.append(Case(f'tc idhex {w} {hx(safe_hexish(rng, n, rep % 2 == 1))}', H, ('idhex', 'len<=cap' if n <= cap else 'overlong')))
+    for bn in range(0, 10):
+        for n in range(0, 2 * bn + 3):
+            for rep in range(2 * mul):
+                out.append(Case(f'tc hex2bin {bn} {hx(safe_hexish(rng, n, rep % 2 == 1))}', H, ('hex2bin', 'fits' if n <= 2 * bn else 'overlong')))
+    for b in range(256):
+        out.append(Case(f'tc ishex {bytes([b]).hex()}', H, ('ishex', 'byte-sweep')))
+    for _ in range(150 * mul):
+        n = rng.randrange(0, 40)
+        h = bytes(rng.choice(HEXD) for _ in range(n))
+        if rng.random() < 0.5 and n:
+            i = rng.randrange(n); h = h[:i] + bytes([rng.randrange(256)]) + h[i + 1:]
+        out.append(Case(f'tc ishex {hx(h)}', H, ('ishex', 'random')))
+    for _ in range(400 * mul):
+        sep = rng.choice([b'-', b'-', b':', b',', b'\x00', b'\xff'])
+        alpha = sep + rng.choice([b'a', b'ab0', bytes(range(256))])
+        txt = bytes(rng.choice(alpha) if rng.random() < 0.7 else sep[0] for _ in range(rng.randrange(0, 14)))
+        out.append(Case(f'tc split {sep.hex()} {rng.randrange(0, 7)} {hx(txt)}', H, ('split', 'random')))
     return out
 
 
@@ -184,13 +313,24 @@ def oracle(case, out):
     t = case.line.split()
     if out.startswith('CRASH'):
         return ('never-crashes-or-reads-out-of-bounds', out)
-    if t[1] in ('inject', 'roundtrip'):
+    if ' ACC:' in out:
+        return ('accessors-tell-the-same-ids-and-flags', out)
+    if t[1] in ('fields', 'inject0', 'idhex', 'hex2bin', 'ishex', 'split'):
+        return oracle_entry_points(t, out)
+    if t[1] in ('inject', 'roundtrip', 'injects', 'roundtrips'):
         tid, sid, fl = bytes.fromhex(t[2]), bytes.fromhex(t[3]), int(t[4], 16)
         ts = b'' if t[5] == '-' else bytes.fromhex(t[5])
         valid = tid != bytes(16) and sid != bytes(8)
         if not valid:
             return None if out == 'none' else ('invalid-context-never-injected', out)
-        if t[1] == 'inject':
+        if t[1].endswith('s'):
+            # the list as Set builds it, by the statement of C14 (new member first, unique keys, at most 32)
+            es = []
+            for mem in reversed(ts.split(b',') if ts else []):
+                k, v = mem.split(b'=', 1)
+                es = C14.spec_set(es, k, v)
+            ts = b','.join(k + b'=' + v for k, v in es)
+        if t[1] in ('inject', 'injects'):
             exp_tp = f'00-{tid.hex()}-{sid.hex()}-{fl:02x}'.encode()
             exp = f'tp={exp_tp.hex()} ts={ts.hex() if ts else "unset"}'
             if out != exp:
@@ -202,7 +342,7 @@ def oracle(case, out):
             return None
         exp = f'tid={tid.hex()} sid={sid.hex()} fl={fl:02x} remote=1 ts=[{canon_entries(ts)}]'
         return None if out == exp else ('extract-of-inject-is-identity', f'got {out} want {exp}')
-    if t[1] == 'extract':
+    if t[1] in ('extract', 'extractp'):
         tp = b'' if t[2] == '-' else bytes.fromhex(t[2])
         sp = spec_extract(tp)
         if out.startswith('installed-invalid'):
@@ -216,7 +356,62 @@ def oracle(case, out):
             return ('every-wellformed-header-accepted', out)
         if (c[0], c[1], c[2], c[3]) != (sp[0].hex(), sp[1].hex(), f'{sp[2]:02x}', '1'):
             return ('exactly-the-encoded-ids-and-flags', out)
+        # the installed trace state: the tracestate header parsed all-or-nothing by the W3C grammar (C14's reference)
+        acc = C14.spec_from(b'' if t[3] == '-' else bytes.fromhex(t[3]))
+        try:
+            got = C14.parse_show('[' + c[4] + ']')
+        except ValueError:
+            got = None
+        if got is None or got not in acc:
+            return ('tracestate-installed-is-the-parsed-header-or-empty', f'{out} want {C14.show(acc[0])}')
         return None
+    return ('bad-case', out)
+
+
+TRACEPARENT, TRACESTATE = b'traceparent', b'tracestate'
+
+
+def oracle_entry_points(t, out):
+    op = t[1]
+    if op == 'fields':
+        n = int(t[2])
+        names = [TRACEPARENT, TRACESTATE]
+        seen = names if n == 0 or n > 2 else names[:n]
+        exp = 'f=[' + ','.join(hx(x) for x in seen) + '] r=' + ('1' if n == 0 or n > 2 else '0')
+        return None if out == exp else ('fields-are-traceparent-and-tracestate', f'got {out} want {exp}')
+    if op == 'inject0':
+        return None if out == 'none' else ('invalid-context-never-injected', out)
+    if op in ('idhex', 'hex2bin'):
+        if op == 'idhex':
+            n = {'t': 16, 's': 8, 'f': 1}[t[2]]
+        else:
+            n = int(t[2])
+        h = b'' if t[3] == '-' else bytes.fromhex(t[3])
+        m = re.fullmatch(r'id=(\S+)', out) if op == 'idhex' else re.fullmatch(r'r=([01]) buf=(\S+)', out)
+        if not m:
+            return ('hex-helper-answers', out)
+        got = m.group(m.lastindex)
+        got = b'' if got == '-' else bytes.fromhex(got)
+        if len(got) != n:
+            return ('hex-helper-fills-exactly-the-buffer', out)
+        if len(h) > 2 * n:
+            ok = got == bytes(n) and (op == 'idhex' or m.group(1) == '0')
+            return None if ok else ('overlong-hex-yields-zero-id', out)
+        if all(c in HEXD for c in h):
+            want = int(h.decode() or '0', 16).to_bytes(n, 'big')
+            ok = got == want and (op == 'idhex' or m.group(1) == '1')
+            return None if ok else ('hex-decodes-left-padded', f'got {out} want {want.hex()}')
+        return None      # non-hex input: no statement beyond "no crash" (CRASH is caught above)
+    if op == 'ishex':
+        h = b'' if t[2] == '-' else bytes.fromhex(t[2])
+        exp = '1' if all(c in HEXD for c in h) else '0'
+        return None if out == exp else ('hex-digits-of-either-case', f'got {out} want {exp}')
+    if op == 'split':
+        sep, cnt = bytes.fromhex(t[2]), int(t[3])
+        h = b'' if t[4] == '-' else bytes.fromhex(t[4])
+        parts = h.split(sep)[:cnt]
+        exp = f'n={len(parts)} [' + ','.join(hx(x) for x in parts) + ']'
+        return None if out == exp else ('split-first-count-fields', f'got {out} want {exp}')
     return ('bad-case', out)
 
 
@@ -226,7 +421,7 @@ def signature(case, out, clause):
 
 def nontrivial(case, out):
     t = case.line.split()
-    return t[2] != '-' and not out.startswith('bad-op')
+    return len(t) > 2 and t[2] != '-' and not out.startswith('bad-op')
 
 LEVEL_TEXT = ('Lean 4 theorems over an executable model of http_trace_context.h / hex.h / string.h: inject_shape (55 bytes, '
               'lower-case, all 256 flag bytes), extract_inject (round trip), extract_iff_wellformed (accepts exactly the W3C '
